@@ -81,6 +81,18 @@ def gen_utf8(tier, rnd):
                     cases.append(("utf8", enc(cp, n)[:-1]))
                 except ValueError:
                     pass
+    # position matrix: one bad byte (or one good multi-byte character) at every position of strings of every length up to
+    # several machine words, behind ASCII and non-ASCII prefixes (aimed at block-at-a-time fast paths)
+    maxlen = 40 if tier == "quick" else 96
+    for L in range(1, maxlen + 1):
+        for prefix in (b"", "\u00e9".encode()):
+            base = prefix + b"a" * L
+            for pos in range(len(prefix), len(base)):
+                for bad in (0x00, 0x80, 0xff):
+                    cases.append(("utf8", base[:pos] + bytes([bad]) + base[pos + 1:]))
+                if L <= 24 or pos % 5 == 0:
+                    cases.append(("utf8", base[:pos] + "\u20ac".encode() + base[pos:]))
+                    cases.append(("utf8", base[:pos] + b"\xe2\x82" + base[pos:]))
     for _ in range(3000 if tier == "quick" else 200000):
         n = rnd.randint(1, 12)
         cases.append(("utf8", bytes(rnd.choice(UTF8_LEADS + UTF8_CONTS + [0x41]) for _ in range(n))))
